@@ -572,6 +572,12 @@ def gen_good(rng: random.Random, pw: dict[str, str | None],
     u, p = who.encode(), (pw[who] or '').encode()
     k = rng.choice(['plain', 'authlogin'] if sieve else
                    ['login', 'login', 'plain', 'authlogin'])
+    if rng.random() < 0.08:
+        tgt = rng.choice([n for n in pw if n != 'root']).encode()
+        return att('plain', 'authzid-admin',
+                   line=b2s(plain_line(tgt, b'root', b'pwR')),
+                   claim=claim_of(tgt, b'root', b'pwR'), mech='PLAIN',
+                   sp=rng.choice(['ir-q', 'cont-q']) if sieve else 'cont')
     if k == 'login':
         return att('login', 'good', u=b2s(u), p=b2s(p),
                    sp=rng.choice(['atom', 'quoted', 'lit+', 'lit']),
@@ -1334,6 +1340,10 @@ class Run:
         self.count('attempts_judged')
         self.count('k_' + k)
         self.count('cfg_' + self.cfg)
+        self.count('attempts_' + self.spec['listener'])
+        self.count('attempts_' + self.backend)
+        self.count('attempts_tls' if self.spec['tls'] else 'attempts_notls')
+        self.count('attempts_peer_' + self.spec['peer'])
         if self.spec.get('sleep'):
             self.count('attempts_with_invalid_user_sleep')
         if after is not None and '+' in after:
@@ -1378,7 +1388,7 @@ class Run:
         v = judge_attempt(a, self.pw, self.sieve)
         lat = v.lat
         ok = x.ok
-        bad = False
+        bad = gbad = False
         shown = after or 'not authenticated'
         # glass box: the backend's own authenticator / authorizer
         for ev in self.glass[mark:]:
@@ -1391,7 +1401,7 @@ class Run:
                         '%r for authcid %r although the credentials do not '
                         'verify (%s); wire answer %s' % (
                             what, ev[3], ev[2][:60], v.how, x.cond))
-                    bad = True
+                    gbad = True
             elif ev[0] == 'authorize':
                 self.count('glass_authorize_calls')
                 if ev[1] == 'returned' and ev[2] != ev[3] and \
@@ -1399,7 +1409,7 @@ class Run:
                     self.report('authorizer-accepted-non-admin-authzid',
                                 '%s: login.authorize let %r act as %r' % (
                                     what, ev[2], ev[3][:60]))
-                    bad = True
+                    gbad = True
         if cancel := a.get('cancel'):
             self.count('cancels_judged')
         # response level
@@ -1477,7 +1487,7 @@ class Run:
                     self.count('valid_accepted')
                 if v.mode == 'admin' and after == v.z:
                     self.count('admin_authzid_honoured')
-        if bad:
+        if bad or gbad:
             raise Stop()
         # bookkeeping of refusals that the statement leaves open
         if v.mode == 'non-admin':
@@ -1667,7 +1677,7 @@ class C09(Check):
     time_cap = {'quick': 60.0, 'thorough': 600.0}
 
     def cases(self, tier: str, seed: int) -> Iterable[dict[str, Any]]:
-        n = 9000 if tier == 'quick' else 110000
+        n = 14000 if tier == 'quick' else 180000
         rng = random.Random(seed * 9176 + 9)
         for i in range(n):
             yield {'seed': seed * 1_000_003 + i,
